@@ -195,6 +195,19 @@ func planC14(tier string, root *simcore.RNG) *plan {
 			add(b, fmt.Sprintf("recode-line:%d:0", i), fmt.Sprintf("junk-prefix:%d:5:0", i))
 		}
 	}
+	// E13: files that are nothing but lines without a vertex (empty lines, CRLF, junk words,
+	// keyword lines), from a few to millions of them
+	for _, n := range []int{1, 100, 65536, 2 << 20, 16 << 20} {
+		for style := 0; style < 4; style++ {
+			if n > 2<<20 && style != 0 {
+				continue // 16 Mi lines only of the one-byte kind
+			}
+			if n > 1<<20 && style%2 == 1 && !thorough {
+				continue
+			}
+			add(fmt.Sprintf("lines:%d:%d", n, style))
+		}
+	}
 	// E7: what the path is
 	for _, b := range []string{bs("bin", 2), bs("ascii", 2), bs("bin", 0)} {
 		for _, op := range []string{"as-symlink", "as-directory", "as-devnull", "as-devzero", "as-missing", "odd-name"} {
